@@ -417,7 +417,7 @@ func ruleNumCallsMax(c *Check, a *Analysis, rule string) {
 // buffer that was freshly assigned to Call.Value on that very path.
 func ruleCopyDestFresh(c *Check, a *Analysis, rule string) {
 	p := c.P
-	c.Rule(rule, "every copy(call.Value, …) of peer bytes is dominated (in its function) by the assignment of a fresh or caller-supplied buffer to that Call.Value", 3)
+	c.Rule(rule, "every copy(call.Value, …) of peer bytes is dominated (in its function) by the assignment of a fresh or caller-supplied buffer to that Call.Value", 1)
 	sc := siteCounter{}
 	for _, fn := range p.Fns {
 		eachInstr(fn, func(in ssa.Instruction) {
